@@ -61,6 +61,7 @@ pub fn cases(prop: &str, seed: u64, tier: &str) -> Vec<String> {
     let mut out = Vec::new();
     match prop {
         "C01" => {
+            fixed_shapes(&mut out, &mut r, false);
             big_cases(&mut out, &mut r, QuerySel { class: false, method: false, lines: true, params: false, all_lines: false, both_files: false }, if tier == "quick" { 1 } else { 12 }, false);
             let b = budget(tier, 120, 4000);
             for i in 0..b.mappings {
@@ -84,6 +85,7 @@ pub fn cases(prop: &str, seed: u64, tier: &str) -> Vec<String> {
             e1_blocks(&mut out, &mut r, None);
         }
         "C02" => {
+            fixed_shapes(&mut out, &mut r, false);
             big_cases(&mut out, &mut r, QuerySel { class: true, method: true, lines: true, params: true, all_lines: false, both_files: false }, if tier == "quick" { 1 } else { 12 }, true);
             let b = budget(tier, 100, 3000);
             for i in 0..b.mappings {
@@ -192,6 +194,17 @@ pub fn cases(prop: &str, seed: u64, tier: &str) -> Vec<String> {
         }
         "C19" => {
             let b = budget(tier, 1500, 60000);
+            // deterministic: the first 50 items span more than 64 KiB, the deciding pair lies behind byte 65536
+            for n in [46usize, 47, 48, 49, 50] {
+                let mut s = String::new();
+                for i in 0..n {
+                    s.push_str(&format!("# c{}: {}\n", i, "v".repeat(1500)));
+                }
+                s.push_str("com.A -> a:\n    1:2:void m():3:4 -> b\n");
+                push_wild(&mut out, s.as_bytes());
+                out.push("D".into());
+            }
+
             for i in 0..b.mappings {
                 let bytes = match i % 6 {
                     0 => gen_mapping(&mut r, &WILD).into_bytes(),
@@ -496,6 +509,8 @@ pub fn cases(prop: &str, seed: u64, tier: &str) -> Vec<String> {
         }
         "C12" => {
             std_cases(&mut out, &mut r, &["HB", "HD", "HW"], if tier == "quick" { 300 } else { 8000 });
+            fixed_shapes(&mut out, &mut r, true);
+            fixed_shapes(&mut out, &mut r, false);
             let b = budget(tier, 400, 20000);
             for _ in 0..(if tier == "quick" { 3 } else { 30 }) {
                 // VALID large caches: every query must answer without panic and correctly (search code on
@@ -522,6 +537,7 @@ pub fn cases(prop: &str, seed: u64, tier: &str) -> Vec<String> {
             }
         }
         "C13" => {
+            fixed_shapes(&mut out, &mut r, false);
             let b = budget(tier, 250, 10000);
             for i in 0..b.mappings {
                 let bytes = match i % 6 {
@@ -703,6 +719,69 @@ pub fn cases(prop: &str, seed: u64, tier: &str) -> Vec<String> {
 }
 
 /// a few large mappings per run (class counts / group sizes around powers of two, long strings)
+/// descriptors that once separated a correct parser from a broken one (kept deterministic: every run asks them)
+pub const FIXED_SIGNATURES: &[&str] = &[
+    "", "(", ")", "()", "()V", "(L", "(La;", "(La;)", "(Lé", "(Lé)V", "(Iaé)V", "V", "(I)Lé;", "(I)L;", "(I)L", "([)V", "(é)é", "(I)[",
+    "x(I)V", "(La/é)V", "(La/é", "(Lé/ü;I)V", "(Lé/ü;[Lx/y;J)[[Lé/ü;", "([[La/b;[La/b;La/b;)V", "(La/b;)La/b;", "([Lé;", "(Lé;I", "(JLa/b", "(I)Lé/ü",
+];
+
+/// A hand-written mapping with the shapes that random pools hit only now and then (so that no run depends on
+/// luck for them): a synthetic-class source file on a class whose name has `$` before its last `.`, the same
+/// without package, a class without source file, an inline pair with an indented R8 comment in between, a
+/// value-less sourceFile reset, overloads, a range-less entry, a foreign-class entry, names that end in
+/// characters `str::trim` strips.
+pub fn special_mapping() -> String {
+    let mut m = String::new();
+    m.push_str("com.acme.gen$1.Handler$$ExternalSyntheticLambda0 -> s.a:\n");
+    m.push_str("# {\"id\":\"sourceFile\",\"fileName\":\"R8$$SyntheticClass\"}\n");
+    m.push_str("    1:3:void run():10:12 -> m\n    void q(int) -> n\n    4:4:void com.acme.gen$v2.ui.Widget$$Lambda.call():7 -> m\n");
+    m.push_str("Outer$Inner$$ExternalSyntheticLambda1 -> s.b:\n# {\"id\":\"sourceFile\",\"fileName\":\"R8$$SyntheticClass\"}\n    1:1:void f():5:5 -> m\n");
+    m.push_str("com.example.MainActivity -> s.c:\n    1:3:void helper(int):20:22 -> x\n    # {\"id\":\"com.android.tools.r8.residualsignature\",\"signature\":\"()V\"}\n    1:3:void run(int):30 -> x\n");
+    m.push_str("    5:9:void run(int,java.lang.String):100:104 -> x\n    void run() -> x\n    2:2:void other.Klass.ext():9:9 -> y\n");
+    m.push_str("com.example.Files -> s.d:\n# {\"id\":\"sourceFile\",\"fileName\":\"Files.kt\"}\n    1:2:void a():3:4 -> m\n# sourceFile\n    3:4:void b():5:6 -> m\n");
+    m.push_str("com.example.Trim\u{2028} -> s.e\u{85}:\n    void t() -> z\u{3000}");
+    m
+}
+fn fixed_shapes(out: &mut Vec<String>, r: &mut Rng, as_buffer: bool) {
+    let m = special_mapping();
+    let h = |s: &str| hex(s.as_bytes());
+    if as_buffer {
+        // the valid cache of that mapping, queried as a buffer (C12)
+        if let Some(full) = write_cache(m.as_bytes()) {
+            out.push(format!("X {}", hex(&full)));
+            let mut qs = Vec::new();
+            emit_queries(&mut qs, m.as_bytes(), r, QuerySel { class: true, method: true, lines: true, params: true, all_lines: false, both_files: false });
+            for q in qs {
+                // K/T/L/P -> k/t/l/p
+                let mut t: Vec<String> = q.split(' ').map(|x| x.to_string()).collect();
+                t[0] = t[0].to_lowercase();
+                out.push(t.join(" "));
+            }
+            for s in FIXED_SIGNATURES {
+                out.push(format!("g {}", h(s)));
+            }
+        }
+        return;
+    }
+    push_mapping(out, m.as_bytes());
+    emit_queries(out, m.as_bytes(), r, QuerySel { class: true, method: true, lines: true, params: true, all_lines: false, both_files: true });
+    for (c, mth) in [("s.a", "m"), ("s.b", "m"), ("s.c", "x"), ("s.d", "m")] {
+        for l in [0usize, 1, 2, 3, 4, 5] {
+            out.push(format!("L {} {} {} {}", h(c), h(mth), l, h("R8$$SyntheticClass")));
+        }
+    }
+    for s in FIXED_SIGNATURES {
+        out.push(format!("G {}", h(s)));
+    }
+    out.push(format!("S {}", h("s.a: boom\n    at s.a.m(SourceFile:2)\n\tat s.c.x(Foo.java:2)  \nCaused by: s.b: x\n    at s.b.m(R8$$SyntheticClass:1)\nCaused By: s.a: y\n    at s.c.x(Worker (1).java:6)\n")));
+    out.push(format!("Y {}", h("s.a: boom\n    at s.a.m(SourceFile:2)\n    at s.c.x(Foo.java:2)\nCaused by: s.b: x\n    at s.b.m(R8$$SyntheticClass:1)\n")));
+    out.push(format!(
+        "YA e:{}:~ p:{}:{}:{} p:{}:{}:{} f:{}:{}:~:0 p:{}:{}:{} f:{}:{}:{}:2 c e:{}:{} f:{}:{}:{}:1",
+        h("s.a"), h("s.c"), h("x"), h("int"), h("s.c"), h("x"), h("int,java.lang.String"), h("s.c"), h("x"), h("s.c"), h("x"), h(""),
+        h("s.a"), h("m"), h("R8$$SyntheticClass"), h("s.b"), h("m"), h("s.b"), h("m"), h("F.java")
+    ));
+}
+
 /// huge structure (thorough tier): more than 65536 classes, more than 65536 members with distinct names in one
 /// class, more than 65536 entries under one name.  The model answers with the specification only.
 fn huge_cases(out: &mut Vec<String>, r: &mut Rng) {
